@@ -13,7 +13,8 @@ EFFECTS_TB = ("extract/effects (go/ast, no type checking): the ordered bank call
 VAULT_ASSUME = ["a rejected message leaves no writes (baseapp message atomicity; the harness delivers on a cache context written back only on success)",
                 "what a handler reads from other modules (ESM / breaker flags, oracle prices, accrued interest) is an input of the step, printed by the harness from the real chain state; the theorems hold for every value of these inputs",
                 "admissible product configuration (enforced at registration, x/asset/keeper/pairs_vault.go:153-165): fees in [0,1), debt floor >= 0, ceiling >= 0, positive asset decimals",
-                "the vault-side bookkeeping of second-generation auction settlement is modelled as the code does it (finding D13); what the auction does with bidders' coins and the penalty is C10's model; partial fills of an auction move only bidder and auction-custody coins (state adopted from the chain on those lines); emergency shutdown (x/esm begin-blocker: vault, stable-mint vault and collector redemption; MsgCollateralRedemption) is modelled at the ledger level (what the holder is paid out of the esm account is not); the redemption of a stable-mint vault leaves its record behind (finding D29) and the theorems over histories exclude that one step (EsmRegular), with the exact resulting offsets as a theorem; the wind-down of first-generation auctions under emergency shutdown (dutch.go:517-640) is modelled in both branches (principal recovered = settle1; less collected = esmReturn1, which keeps every ledger equation but may re-create a vault below the debt floor, so it is excluded from the history theorems like esmStable and stated as a one-step theorem)"]
+                "the vault-side bookkeeping of second-generation auction settlement is modelled as the code does it (finding D13); what the auction does with bidders' coins and the penalty is C10's model; partial fills of an auction move only bidder and auction-custody coins (state adopted from the chain on those lines); emergency shutdown (x/esm begin-blocker: vault, stable-mint vault and collector redemption; MsgCollateralRedemption) is modelled at the ledger level (what the holder is paid out of the esm account is not); the redemption of a stable-mint vault leaves its record behind (finding D29) and the theorems over histories exclude that one step (EsmRegular), with the exact resulting offsets as a theorem; the wind-down of first-generation auctions under emergency shutdown (dutch.go:517-640) is modelled in both branches (principal recovered = settle1; less collected = esmReturn1, which keeps every ledger equation but may re-create a vault below the debt floor, so it is excluded from the history theorems like esmStable and stated as a one-step theorem); the hand-back of a SECOND-generation auction that runs out under emergency shutdown (auctionsV2 TriggerEsm, auctions.go:487-534) is modelled as the code is (esmReturn2: the owner's vault is credited, no coin reaches custody, auction and locked vault stay — finding D39) and excluded from the history theorems in the same way, with its exact effect as a theorem (trigger_esm_effect) and a kernel-checked witness",
+                "the product configuration may change between any two messages (WasmUpdatePairsVault, x/asset proposals): the reconfiguration theorems assume only that a product keeps its id and its two assets (CfgExt - no update path can change them; an asset's denom can be changed by UpdateAssetRecords, which would orphan every coin of the old denom and is outside the model) and that the new parameters are admissible (CfgOk; WasmUpdatePairsVault itself checks nothing, the harness generates admissible values)"]
 
 PROP = dict(
     title="CDP vault custody and published totals",
@@ -34,7 +35,9 @@ PROP = dict(
                        "Comdex.C01.deposit_runs_ops", "Comdex.C01.withdraw_runs_ops", "Comdex.C01.draw_runs_ops",
                        "Comdex.C01.vault_all_classified", "Comdex.C01.vault_writes_after_bank", "Comdex.C01.vault_own_writes",
                        "Comdex.C01.vault_table_shape", "Comdex.C01.custody_go_all", "Comdex.C01.seize_effects", "Comdex.C01.esm_effects",
-                       "Comdex.C01.sweep_cached", "Comdex.C01.esm_pins"],
+                       "Comdex.C01.sweep_cached", "Comdex.C01.esm_pins",
+                       "Comdex.C01.apply_invL", "Comdex.C01.apply_invL_any", "Comdex.C01.invL_always_reconfig", "Comdex.C01.ledger_eq_reconfig",
+                       "Comdex.C01.trigger_esm_effect", "Comdex.C01.trigger_esm_counterexample"],
     harness_tests=["TestC01"],
     monitors=["custody_eq", "count_eq", "totals_eq"],
     trusted_base=[KERNEL_TB, HARNESS_TB, DEC_TB, VAULT_TB, EFFECTS_TB],
@@ -57,6 +60,8 @@ META = dict(
          "histories on the real message router and comparing the full ledger projection after every message; the invariants are also "
          "evaluated by the Lean driver on the real chain state.",
     note="Trusted: Lean kernel; the model's faithfulness as far as the correspondence exercises it; message atomicity; admissible product "
-         "configuration. Partial: minted-totals equality only without auction settlement (the code violates it: D13); ESM redemption and "
-         "generation-1 liquidation not modelled.",
+         "configuration. Partial: minted-totals equality only without second-generation auction settlement (the code violates it: D13); three "
+         "emergency-shutdown steps are outside the history theorems and stated as one-step theorems with their exact effect (esmStable D29, "
+         "esmReturn1 floor premise, esmReturn2 = auctionsV2 TriggerEsm D39). Configuration changes in the middle of a history are covered "
+         "(ledger_eq_reconfig) and generated by the harness through the real update paths.",
 )
